@@ -20,6 +20,7 @@ import (
 	"sort"
 	"strconv"
 	"strings"
+	"sync/atomic"
 	"syscall"
 	"time"
 
@@ -89,6 +90,18 @@ func MaybeRun() {
 		return
 	}
 	os.Exit(run(path))
+}
+
+// beatCount is advanced every 5 ms; missing beats mean the process is starved of CPU.
+var beatCount int64
+
+func init() {
+	go func() {
+		for {
+			time.Sleep(5 * time.Millisecond)
+			atomic.AddInt64(&beatCount, 1)
+		}
+	}()
 }
 
 type fileLoader struct{ path string }
@@ -305,8 +318,8 @@ func run(scriptPath string) int {
 				done <- fmt.Errorf("unknown op %q", st.Op)
 			}
 		}(st)
-		select {
-		case err := <-done:
+		beats, at := atomic.LoadInt64(&beatCount), time.Now()
+		finish := func(err error) {
 			o.OK = err == nil
 			if err != nil {
 				o.Err = err.Error()
@@ -314,8 +327,25 @@ func run(scriptPath string) int {
 					o.Hung = true
 				}
 			}
+		}
+		select {
+		case err := <-done:
+			finish(err)
 		case <-time.After(10 * time.Second):
-			o.Hung = true
+			// fewer than half of the expected heartbeats: the whole process was short of CPU
+			expected := int64(time.Since(at) / (5 * time.Millisecond))
+			if (atomic.LoadInt64(&beatCount)-beats)*2 < expected {
+				select {
+				case err := <-done:
+					finish(err)
+					o.OK, o.Hung = false, false
+					o.Err = "SLOW-MACHINE" // returned, but only on a long second chance: no verdict
+				case <-time.After(60 * time.Second):
+					o.Hung = true
+				}
+			} else {
+				o.Hung = true
+			}
 		}
 		if o.Hung {
 			buf := make([]byte, 1<<16)
